@@ -28,20 +28,24 @@ USES_TABLES = True
 
 THEOREMS = [
     "Pyval.table_covers",
-    "Pyval.paren_table_partial", "Pyval.paren_table_counterexample",
+    "Pyval.paren_table_exact", "Pyval.paren_table_partial", "Pyval.paren_table_counterexample",
     "Pyval.paren_table_oversound",
+    "Pyval.toDoc_flatten", "Pyval.parseA_ok", "Pyval.derives_core",
     "Pyval.render_groups_partial", "Pyval.render_groups_counterexample",
     "Pyval.tuple_kept_partial", "Pyval.tuple_kept_counterexample",
-    "Pyval.str_roundtrip", "Pyval.bytes_roundtrip_partial", "Pyval.bytes_roundtrip_counterexample",
+    "Pyval.str_roundtrip", "Pyval.str_roundtrip_lines",
+    "Pyval.bytes_roundtrip_partial", "Pyval.bytes_roundtrip_counterexample",
     "Pyval.display_eq_render", "Pyval.nul_dropped_counterexample",
-    "Pyval.output_marked", "Pyval.wrap_marked",
+    "Pyval.output_marked", "Pyval.exec_spec", "Pyval.wrap_marked", "Pyval.wrap_prefix_counterexample",
 ]
 PARTIAL = {
-    "Pyval.paren_table_partial": "excludes (parent, right, child) where parent and child are binary operators of equal table precedence and the parent is not ** (a-(b-c), a/(b*c), a-(b+c) lose their parentheses)",
-    "Pyval.render_groups_partial": "excludes trees containing: a non-** binary operator whose right operand is a binary operator of equal precedence; a one-element tuple; an empty tuple used as subscript index",
+    "Pyval.paren_table_partial": "excludes the 36 table entries (parent = right operand of a non-** binary operator, child = binary operator of equal table precedence) where a-(b-c), a/(b*c), a-(b+c) lose their parentheses; paren_table_exact shows these are the only ones",
+    "Pyval.render_groups_partial": "okTree excludes trees containing: a non-** binary operator whose right operand is a binary operator of equal precedence; a one-element tuple (also as subscript index); an empty tuple as subscript index; an int beyond the str() digit limit; a delegated node on which astor raised",
+    "Pyval.derives_core": "same exclusions as render_groups_partial (it is its induction core)",
     "Pyval.tuple_kept_partial": "holds only for tuples of length != 1 (the colorizer never writes the trailing comma)",
     "Pyval.bytes_roundtrip_partial": "excludes bytes values that contain ' and no \" (repr() switches to double quotes, the colorizer keeps single quotes)",
-    "Pyval.display_eq_render": "needs NUL-free text: docutils' Text.astext drops NUL characters",
+    "Pyval.display_eq_render": "needs NUL-free item text: docutils' Text.astext drops NUL characters",
+    "Pyval.wrap_marked": "full for what the property says (cut => marked, complete => nothing lost); the stronger 'cut output is a prefix of the full text' is false (wrap_prefix_counterexample: the closing parenthesis of an open operator group is still written)",
 }
 RULE = ("exhaustive: every root form (4 unary, 13 binary, and/or with 2 and 3 operands, 10 comparison operators and "
         "chains, conditional, lambda, 7 call shapes, 6 subscript shapes, attribute, tuple/list/set/dict displays of "
@@ -70,7 +74,7 @@ BIN = {"Add": "+", "Sub": "-", "Mult": "*", "MatMult": "@", "Div": "/", "Mod": "
 BOOL = {"And": "and", "Or": "or"}
 CMP = {"Eq": "==", "NotEq": "!=", "Lt": "<", "LtE": "<=", "Gt": ">", "GtE": ">=", "Is": "is",
        "IsNot": "is not", "In": "in", "NotIn": "not in"}
-CMP_QUICK = ["Lt", "IsNot", "NotIn"]
+CMP_QUICK = ["Lt", "NotIn"]
 
 
 class Form:
@@ -440,15 +444,15 @@ def classify_root(node: ast.AST, verdict: str) -> str:
     if isinstance(node, ast.BinOp) and not isinstance(node.op, ast.Pow) and isinstance(node.right, ast.BinOp) \
             and PREC_CLASS[type(node.op)] == PREC_CLASS[type(node.right.op)]:
         return "paren:right-operand-equal-precedence"
-    f = leaf_feature(node)        # a leaf whose spelling depends on the context (linebreakok, delegated)
-    if f is not None:
-        return f
-    if isinstance(node, DELEGATED):
+    if isinstance(node, DELEGATED):       # the whole text of a minimal failing delegated form is astor's
         return "delegated:astor"
     if isinstance(node, ast.Subscript):
         parts = node.slice.elts if isinstance(node.slice, ast.Tuple) else [node.slice]
         if any(isinstance(p, ast.Slice) for p in parts):
             return "delegated:astor"
+    f = leaf_feature(node)        # a leaf whose spelling depends on the context (linebreakok)
+    if f is not None:
+        return f
     return "other:" + verdict + ":" + type(node).__name__
 
 
@@ -954,7 +958,7 @@ def exhaustive_docs() -> Iterable[Any]:
 def grammar_stream(ctx: Ctx) -> None:
     reqs, impls, pay = [], [], []
     docs = list(exhaustive_docs())
-    n = 6000 if ctx.quick else 150000
+    n = 4000 if ctx.quick else 150000
     docs += [rand_doc(ctx.rng, ctx.rng.randint(1, 4)) for _ in range(n)]
     seen = set()
     for d in docs:
@@ -985,11 +989,82 @@ def grammar_stream(ctx: Ctx) -> None:
     ctx.compare("pyval-grammar-vs-cpython", reqs, impls, pay)
 
 
+# --------------------------------------------------------------------------- pipeline stream (glue)
+
+def pipeline_stream(ctx: Ctx) -> None:
+    """the same expressions where pydoctor shows them: a constant's value (colorize_pyval with the
+    configured line length / line count), a parameter default (_ValueFormatter), a decorator and a base
+    class (colorize_inline_pyval on the node inside the module tree, whose parent is a statement)"""
+    from pydoctor import model
+    from pydoctor.epydoc.markup._pyval_repr import colorize_pyval, colorize_inline_pyval
+    from pydoctor.node2stan import gettext
+    n = 150 if ctx.quick else 2500
+    reqs, impls, pay = [], [], []
+
+    def take(node_in_tree: ast.AST, src: str, r, cfg) -> None:
+        ans = "ok %d %s" % (1 if r.is_complete else 0, enc("".join(gettext(r.to_node()))))
+        tree2 = ast.parse(src, mode="eval").body
+        try:
+            toks = etoks(tree2)
+        except Skip:
+            toks = None
+        if toks is not None:
+            reqs.append("pyval render %d %d %d %s" % (cfg[0], cfg[1], 1 if cfg[2] else 0, " ".join(toks)))
+            impls.append(ans)
+            pay.append({"source": src, "linelen": cfg[0], "maxlines": cfg[1], "linebreakok": cfg[2], "where": "pipeline"})
+        ctx.case("P|%s|%r" % (src, cfg), nontrivial(tree2), None)
+        ctx.count("stream:pipeline")
+        oracle(ctx, src, tree2, ans, r, cfg)
+
+    for _ in range(n):
+        e1, e2, e3, e4 = (rand_expr(ctx.rng, ctx.rng.randint(1, 3)) for _ in range(4))
+        src = ("X = %s\n\ndef deco(*a): return lambda f: f\n\n@deco(%s)\ndef f(p=%s):\n    pass\n\n"
+               "class Base: pass\n\nclass C(Base[%s]):\n    pass\n") % (e1, e2, e3, e4)
+        try:
+            ast.parse(src)
+        except SyntaxError:
+            ctx.count("pipeline:unparsable-generated")
+            continue
+        linelen = ctx.rng.choice([0, 20, 40, 80])
+        maxlines = ctx.rng.choice([0, 1, 3, 7])
+        try:
+            system = model.System()
+            system.options.pyvalreprlinelen = linelen
+            system.options.pyvalreprmaxlines = maxlines
+            builder = system.systemBuilder(system)
+            builder.addModuleString(src, "m")
+            builder.buildModules()
+            mod = system.allobjects["m"]
+            x, f, c = mod.contents.get("X"), mod.contents["f"], mod.contents["C"]
+            got = []
+            if x is not None and getattr(x, "value", None) is not None:
+                got.append((x.value, e1, colorize_pyval(x.value, linelen=system.options.pyvalreprlinelen,
+                                                       maxlines=system.options.pyvalreprmaxlines),
+                            (linelen, maxlines, True)))
+            else:
+                ctx.count("pipeline:X-is-an-alias-not-an-attribute")
+            got += [
+                (None, e3, f.signature.parameters["p"].default._colorized, (0, 1, False)),
+                (f.decorators[0], "deco(%s)" % e2, colorize_inline_pyval(f.decorators[0]), (0, 1, False)),
+                (c.rawbases[0][1], "Base[%s]" % e4, colorize_inline_pyval(c.rawbases[0][1]), (0, 1, False)),
+            ]
+        except Exception as ex:
+            sig = "leaf:huge-int-ValueError" if isinstance(ex, ValueError) and "digits" in str(ex) else \
+                "pipeline-crash:" + type(ex).__name__
+            ctx.fail(sig, {"module": src}, f"building / colorizing raised {type(ex).__name__}: {str(ex)[:80]}")
+            continue
+        for node, esrc, r, cfg in got:
+            take(node, esrc, r, cfg)
+    ctx.compare("pyval-pipeline", reqs, impls, pay)
+
+
 # --------------------------------------------------------------------------- run
 
 def run(ctx: Ctx) -> None:
     import sys
+    import warnings
     sys.setrecursionlimit(10000)
+    warnings.simplefilter("ignore", SyntaxWarning)     # displayed text with stray backslashes is re-parsed
     # 1. exhaustive depth 2
     b = Batch(ctx, "depth2")
     for src in gen_depth2(ctx):
@@ -1034,7 +1109,7 @@ def run(ctx: Ctx) -> None:
     b.flush()
     # 5. random deeper trees
     b = Batch(ctx, "random")
-    n = 2500 if ctx.quick else 60000
+    n = 2000 if ctx.quick else 60000
     for _ in range(n):
         src = rand_expr(ctx.rng, ctx.rng.randint(3, 5))
         if len(src) > 400:
@@ -1045,6 +1120,8 @@ def run(ctx: Ctx) -> None:
     b.flush()
     # 6. the grammar reading used by the theorems, against CPython's parser
     grammar_stream(ctx)
+    # 7. the expressions where pydoctor really shows them
+    pipeline_stream(ctx)
     ctx.extra["forms"] = len(FORMS)
 
 
